@@ -785,7 +785,7 @@ pub fn cuts(rng: &mut Rng, wl: &Workload, char_safe: bool) -> Vec<usize> {
     let mut points: Vec<usize> = Vec::new();
     match rng.below(10) {
         0 => {} // single chunk
-        1 => points.extend(1..n), // all single bytes
+        1 if n <= 100_000 => points.extend(1..n), // all single bytes
         2..=5 => {
             let k = *rng.pick(&[2usize, 3, 8, 64, 1024]);
             let mut p = 0;
